@@ -97,8 +97,9 @@ struct Driver::DriverImpl
   void Unbump();
 
   // interactions with sockets
-  void QuerySockets();
-  void DoOneSocketTask();
+  /// @return  index of the first socket that holds received data already, number of sockets otherwise
+  size_t QuerySockets();
+  void DoOneSocketTask(size_t received);
 };
 
 } // namespace sockpuppet
